@@ -25,7 +25,7 @@ CLAIMED = {
     ),
     "C18": dict(
         category="exploration", design_ref="DESIGN.md 5.6",
-        text="Deterministic simulation with a real SQLite engine: one SqliteWriter, independent observer connections that look between any two writer calls, a lock holder that keeps a read transaction open across the writer's commits (raw connection or the library's own SqliteReader suspended between batches), releases, and crash snapshots (db + journal copied and opened) are scheduled by a seeded plan over gain-only schema evolution with SQL-keyword/mixed-case/slashed names and boundary values; every workload is re-executed under a second batch size. Oracle: what any observer or snapshot sees is a prefix of the acknowledged rows whose length is a commit point of the documented policy and never shrinks; after close everything is there exactly once (refused-by-BUSY rows 0 or 1 times), shape and cell values match an independently computed expectation, SqliteReader returns the same values, and content is identical across batch sizes; after the lock is released one retry of close() succeeds.",
+        text="Deterministic simulation with a real SQLite engine: one SqliteWriter, independent observer connections that look between any two writer calls, a lock holder that keeps a read transaction open across the writer's commits (raw connection or the library's own SqliteReader suspended between batches), releases, and crash snapshots (db + journal copied and opened) are scheduled by a seeded plan over gain-only schema evolution with SQL-keyword/mixed-case/slashed names and boundary values; every workload is re-executed under a second batch size. Oracle: what any observer or snapshot sees is a prefix of the acknowledged rows whose length is a commit point of the documented policy and never shrinks; after close everything is there exactly once (refused-by-BUSY rows 0 or 1 times), shape and cell values match an independently computed expectation, SqliteReader returns the same values whatever its fetch batch (1 ... 100 000, given directly or through a sqlite:// URI; rare bulk plans reach tables of 10 007 / 16 390 rows), and content is identical across batch sizes; after the lock is released one retry of close() succeeds.",
         note="Trusted: the SQLite engine and its file locking (real, not simulated); crash = byte copy between two API calls; identifiers differing only by case and conflicting column re-declarations are outside the domain.",
         technique="deterministic simulation: seeded schedule of observer looks / lock holders / crash snapshots between writer calls against a committed-prefix reference model, real SQLite engine",
     ),
